@@ -6,7 +6,8 @@ CONSTANTS
   Ks = {1}
   DKeySeq <- KeysA
   MaxSeq = 1
-  MaxNodes = 40
+  MaxXs = 2
+  MaxNodes = 48
   MaxOps = 2
   MaxTx = 1
   Acts = {"new", "assign", "member", "container", "mutate", "storage", "ref"}
